@@ -866,6 +866,14 @@ class SymX:
             k = (base, e.attr)
             if k in st.heap:
                 return st.heap[k]
+            if base == ("v", "self") and self.cls_name:
+                # class-level default (`label_type = None` in a class body), looked up along the MRO
+                for cn in self.prog.mro(self.cls_name):
+                    for stc in self.prog.classes[cn].node.body:
+                        if isinstance(stc, ast.Assign) and any(isinstance(t_, ast.Name) and t_.id == e.attr for t_ in stc.targets):
+                            ok_, v_ = self.prog.try_const(stc.value, self.prog.classes[cn].mod)
+                            if ok_ and isinstance(v_, (int, float, str, bool, type(None))):
+                                return C(v_)
             return ("attr", base, e.attr)
         if isinstance(e, ast.Subscript):
             base = ev(e.value)
@@ -958,6 +966,9 @@ class SymX:
         name = call_name(c)
         args = tuple(ev(a) for a in c.args)
         kws = tuple((k.arg, ev(k.value)) for k in c.keywords)
+        if name == "getattr" and len(args) == 2 and is_const(args[1]) and isinstance(args[1][1], str) and not kws:
+            k_ = (args[0], args[1][1])
+            return st.heap[k_] if k_ in st.heap else ("attr", args[0], args[1][1])
         # self.method(...) -> inline
         if isinstance(c.func, ast.Attribute) and isinstance(c.func.value, ast.Name) and c.func.value.id == "self" \
                 and self.cls_name and st.env.get("self") == ("v", "self"):
@@ -973,8 +984,17 @@ class SymX:
                 return self.inline(f.mod.funcs[fv[1]], args, kws, st, depth)
             if fv[0] == "call" and fv[1] in ("methodcaller", "operator.methodcaller") and fv[2] and is_const(fv[2][0]) and isinstance(fv[2][0][1], str) and len(args) == 1:
                 return ("mcall", args[0], fv[2][0][1], tuple(fv[2][1:]), tuple(fv[3]))
+            if fv[0] == "attr" and fv[1] == ("v", "operator") and fv[2] in ("gt", "lt", "ge", "le", "eq", "ne") and len(args) == 2:
+                op_ = {"gt": ">", "lt": "<", "ge": ">=", "le": "<=", "eq": "==", "ne": "!="}[fv[2]]
+                return simp(("cmp", op_, args[0], args[1]))
             if fv[0] != "v" or fv[1] != c.func.id:
                 return ("apply", fv, args, kws)
+        if isinstance(c.func, ast.Attribute) and isinstance(c.func.value, ast.Call) and isinstance(c.func.value.func, ast.Name) \
+                and c.func.value.func.id == "super" and f.cls is not None and depth < self.inline_depth and st.env.get("self") == ("v", "self"):
+            for b_ in self.prog.mro(f.cls.name)[1:]:
+                m = self.prog.classes[b_].methods.get(c.func.attr)
+                if m is not None:
+                    return self.inline(m, (("v", "self"),) + args, kws, st, depth)
         callees = self.ctx.cg.resolve(c, f)
         if isinstance(c.func, ast.Name) and len(callees) == 1 and callees[0].cls is None and depth < self.inline_depth \
                 and callees[0].name not in self.no_inline:
@@ -1189,22 +1209,38 @@ def classify(loop):
             continue
         # MAX / MIN, including the None-seeded idiom `if best is None or e < best: best = e`
         none_seeded = False
+        truthy_seed = False
         if u[0] == "ite" and u[3] == acc and u[1][0] == "or" and len(u[1][1]) == 2 and init == C(None):
-            isnone = [x for x in u[1][1] if x in (("cmp", "is", acc, C(None)), ("cmp", "==", acc, C(None)), ("cmp", "==", C(None), acc))]
+            def _is_seed_test(x):
+                # `best is None` on this accumulator or on one that is assigned jointly with it (also None-initialised)
+                if x[0] == "cmp" and x[1] in ("is", "==") and C(None) in (x[2], x[3]):
+                    o = x[3] if x[2] == C(None) else x[2]
+                    return o[0] == "acc" and o[1] == loop.id and loop.init.get(o[2]) == C(None)
+                return False
+
+            def _is_truthy_seed(x):
+                return x[0] == "not" and x[1][0] == "truthy" and x[1][1][0] == "acc" and x[1][1][1] == loop.id and loop.init.get(x[1][1][2]) == C(None)
+            isnone = [x for x in u[1][1] if _is_seed_test(x) or _is_truthy_seed(x)]
             others = [x for x in u[1][1] if x not in isnone]
             if len(isnone) == 1 and len(others) == 1 and others[0][0] == "cmp" and others[0][1] in ("<", "<="):
+                truthy_seed = _is_truthy_seed(isnone[0])
+                seed_cond = u[1]
                 u = ("ite", others[0], u[2], u[3])
                 none_seeded = True
         if u[0] == "ite" and u[3] == acc and u[1][0] == "cmp" and u[1][1] in ("<", "<="):
             c = u[1]
             e = u[2]
             if c[2] == acc and c[3] == e and not mentions_acc(e, loop.id):
-                out[v] = Fold("EXT", sense="max", strict=(c[1] == "<"), init=init, term=e, cond=c, none_seeded=none_seeded)
+                out[v] = Fold("EXT", sense="max", strict=(c[1] == "<"), init=init, term=e, cond=c, none_seeded=none_seeded, truthy_seed=truthy_seed)
                 ext[c] = v
+                if none_seeded:
+                    ext[seed_cond] = v
                 continue
             if c[3] == acc and c[2] == e and not mentions_acc(e, loop.id):
-                out[v] = Fold("EXT", sense="min", strict=(c[1] == "<"), init=init, term=e, cond=c, none_seeded=none_seeded)
+                out[v] = Fold("EXT", sense="min", strict=(c[1] == "<"), init=init, term=e, cond=c, none_seeded=none_seeded, truthy_seed=truthy_seed)
                 ext[c] = v
+                if none_seeded:
+                    ext[seed_cond] = v
                 continue
         # tie test first: `if tie(e, best): ... elif e > best: best = e`
         if u[0] == "ite" and u[2] == acc and u[3][0] == "ite" and u[3][3] == acc and u[3][1][0] == "cmp" and u[3][1][1] in ("<", "<=") \
